@@ -27,9 +27,10 @@ def main():
                 print(d, "PATCH DOES NOT APPLY", r.stderr[:200])
                 continue
             alarms, errs = {}, {}
+            repo = Repo(wt)  # one parse per tree; the checks only read it
             for pid in PROPS:
                 mod = importlib.import_module(f"opfcheck.props.{pid.lower()}")
-                code, viol, err = dry_run(pid, mod.check, Repo(wt))
+                code, viol, err = dry_run(pid, mod.check, repo)
                 if code == 1:
                     alarms[pid] = [(v.rule, v.function, v.construct[:70], v.detail[:110]) for v in viol]
                 elif code == 2:
